@@ -123,7 +123,7 @@ func checkC11(p *Prog, r *Report) {
 			rec := recs[0]
 			checkLevel(rIn, c, rec)
 			/* Find write and flush as C02 does. */
-			w := ioParam(fn, "Writer")
+			w := ioOperand(fn, "Writer")
 			var wcall, fcall *ssa.Call
 			eachInstr(fn, func(i ssa.Instruction) {
 				cc, ok := i.(*ssa.Call)
@@ -133,12 +133,12 @@ func checkC11(p *Prog, r *Report) {
 				switch calleeName(cc.Common()) {
 				case "io.WriteString", "(io.Writer).Write":
 					for _, a := range callArgs(cc.Common()) {
-						if stripConv(a, false) == ssa.Value(w) {
+						if nil != w && stripConv(a, false) == w {
 							wcall = cc
 						}
 					}
 				}
-				if _, isPhi := cc.Common().Value.(*ssa.Phi); isPhi && 0 == len(cc.Common().Args) {
+				if _, isPhi := resolveFree(cc.Common().Value).(*ssa.Phi); isPhi && 0 == len(cc.Common().Args) && !cc.Common().IsInvoke() {
 					fcall = cc
 				}
 			})
